@@ -102,7 +102,9 @@ def stream_cases(idx, streams, decodes, names=None):
             continue
         b = streams[n]
         ma, mi = (int(x) for x in e["version"].split("."))
-        in_model = e["class"] in ("pc-seq", "mesh-seq") and (ma, mi) >= (2, 0) and e["size"] <= 60000
+        # every stream goes to the Lean decoder model as well; what the model does not cover (legacy versions,
+        # kd-tree until modelled) comes back as `unsupported …` and is then checked by the frozen-decode oracle only
+        in_model = e["size"] <= 60000
         c = Case("dec - " + b.hex(), model=None if in_model else False, expect=model_expect,
                  oracle=frozen_oracle(n, decodes[n]),
                  tags=(e["kind"], "class:" + e["class"], "v" + e["version"], "model" if in_model else "impl-only"),
